@@ -200,6 +200,11 @@ namespace igris
             if (newsize >= N)
                 newsize = N;
 
+            for (size_t i = newsize; i < m_size; ++i)
+            {
+                reinterpret_cast<T *>(&_data[i])->~T();
+            }
+
             for (size_t i = m_size; i < newsize; ++i)
             {
                 new (&_data[i]) T{};
@@ -210,6 +215,10 @@ namespace igris
 
         void clear()
         {
+            for (std::size_t pos = 0; pos < m_size; ++pos)
+            {
+                reinterpret_cast<T *>(&_data[pos])->~T();
+            }
             m_size = 0;
         }
     };
